@@ -1,4 +1,5 @@
 import QmiModel.Model.Task
+import QmiModel.Model.LoopTask
 import Drv.Common
 /-! Trace-refinement driver for C10.
 
@@ -10,11 +11,21 @@ Input lines
   `blocked join <0|1>`            the scheduler reported "join waits for ever" (arg: task body parked until a
                                   stop request)                              → `ok` iff `join` is not enabled and no
                                   thread action is enabled either
+  `end released`                  `remove_rpc_object` returned: runner removed, thread ended and joined, nothing half done → `ok`
+  `linit <period> <immediate|skip|terminate>`   the task is a `QMI_LoopTask`: also follow `LoopTask.lstep`  → `ok`
+  `L|<lact>|<next or ?>`          one logged event of `QMI_LoopTask.run`: enabled in the loop model, taken while the
+                                  lifecycle model is inside `run()`; `testStop`/`wake` must agree with the stop flag
+                                  of the lifecycle state; `next_time` (when reported) must agree
+                                  `<lact>` = hook:<prepare|process|iteration|status|pubStatus|pubSignals|finalize>:<ret|stopExc|otherExc>
+                                  clock:<n> testStop:<0|1> updDone:<0|1> statusDone:<0|1> wake:<0|1> selfStopDone
+  (with a loop model present `runEnter` needs the loop at its start and `runEnd:<o>` needs it at `done o`)
 `<act>` = initOk initFail wake runEnter updCheck updPop runEnd:<ret|stopExc|otherExc> mark threadEnd ctorWait ctorGet
           startCheck startKick stopRegion stopSet join isRunning set:<n> getSettings getPending
+          updPub setStatus:<n> getStatus exitBegin releaseBegin extStopRegion extStopSet
           tregion   (a `with _state_cond:` region of `_TaskThread.run`; which one follows from the thread's pc)
 -/
 open QmiModel.Task
+open QmiModel.LoopTask
 
 def tsName : TS → String
   | .initial => "INITIAL" | .excInit => "EXCEPTION_WHILE_INSTANTIATING_TASK" | .ready => "READY_TO_RUN"
@@ -25,7 +36,7 @@ def b01 (b : Bool) : String := if b then "1" else "0"
 def optS : Option Nat → String | none => "-" | some n => toString n
 
 def absOf (s : State) : String :=
-  s!"{tsName s.st} {b01 s.exc} {b01 s.stopReq} {optS s.slot} {optS s.settings} {b01 s.joined}"
+  s!"{tsName s.st} {b01 s.exc} {b01 s.stopReq} {optS s.slot} {optS s.settings} {b01 s.joined} {optS s.status}"
 
 def resName : Res → String
   | .none => "none" | .unit => "unit" | .pending => "pending"
@@ -37,11 +48,17 @@ def resName : Res → String
 
 def pcName : Pc → String
   | .init => "init" | .waiting => "waiting" | .goRun => "goRun" | .inRun => "inRun" | .inUpd => "inUpd"
+  | .inPub => "inPub"
   | .ranOut .ret => "ranOut:ret" | .ranOut .stopExc => "ranOut:stopExc" | .ranOut .otherExc => "ranOut:otherExc"
   | .exiting => "exiting" | .ended => "ended"
 
-def phaseName : Phase → String | .ctor0 => "ctor0" | .ctor1 => "ctor1" | .up => "up" | .failed => "failed"
-def rpcName : Rpc → String | .idle => "idle" | .startMid => "startMid" | .stopMid => "stopMid"
+def phaseName : Phase → String
+  | .ctor0 => "ctor0" | .ctor1 => "ctor1" | .up => "up" | .failed => "failed" | .removed => "removed"
+def compName : Comp → String | .plain => "plain" | .exit => "exit" | .release => "release"
+def rpcName : Rpc → String
+  | .idle => "idle" | .startMid => "startMid" | .compStop c => "compStop:" ++ compName c
+  | .stopMid c => "stopMid:" ++ compName c | .compJoin c => "compJoin:" ++ compName c
+  | .joinMid c => "joinMid:" ++ compName c
 
 def ctlOf (s : State) : String := s!"pc={pcName s.pc} phase={phaseName s.phase} rpc={rpcName s.rpc}"
 
@@ -50,13 +67,16 @@ def parseAct (s : State) (tok : String) (abs : String) : Option Act :=
   match tok.splitOn ":" with
   | ["initOk"] => some .initOk | ["initFail"] => some .initFail | ["wake"] => some .wake
   | ["runEnter"] => some .runEnter | ["updCheck"] => some .updCheck | ["updPop"] => some .updPop
+  | ["updPub"] => some .updPub | ["setStatus", n] => n.toNat?.map .setStatus | ["getStatus"] => some .getStatus
+  | ["exitBegin"] => some .exitBegin | ["releaseBegin"] => some .releaseBegin
+  | ["extStopRegion"] => some .extStopRegion | ["extStopSet"] => some .extStopSet
   | ["runEnd", "ret"] => some (.runEnd .ret) | ["runEnd", "stopExc"] => some (.runEnd .stopExc)
   | ["runEnd", "otherExc"] => some (.runEnd .otherExc)
   | ["mark"] => some .mark | ["threadEnd"] => some .threadEnd
   | ["ctorWait"] => some .ctorWait | ["ctorGet"] => some .ctorGet
   | ["startCheck"] => some .startCheck | ["startKick"] => some .startKick
   | ["stopRegion"] => some .stopRegion | ["stopSet"] => some .stopSet
-  | ["join"] => some .join | ["isRunning"] => some .isRunning
+  | ["join"] => some .join | ["joinSet"] => some .joinSet | ["isRunning"] => some .isRunning
   | ["set", n] => n.toNat?.map .setSettings
   | ["getSettings"] => some .getSettings | ["getPending"] => some .getPending
   | ["tregion"] =>
@@ -67,7 +87,7 @@ def parseAct (s : State) (tok : String) (abs : String) : Option Act :=
     | _ => none
   | _ => none
 
-def stepLine (s : State) (line : String) : State × String :=
+def stepTask (s : State) (line : String) : State × String :=
   if line == "init" then (init, "ok") else
   match line.splitOn "|" with
   | [tok, r, abs] =>
@@ -88,7 +108,7 @@ def stepLine (s : State) (line : String) : State × String :=
     | ["blocked", "join", bb] =>
       if bb != "0" && bb != "1" then (s, "bad-op") else
       let bodyBlocked := bb == "1"
-      if !s.free then (s, s!"mismatch runner-not-free {ctlOf s}")
+      if s.joinCtx.isNone then (s, s!"mismatch runner-not-at-a-join {ctlOf s}")
       else if (step s .join).isSome then (s, s!"mismatch join-enabled {ctlOf s} {absOf s}")
       else if threadCanMove s then (s, s!"mismatch thread-can-move {ctlOf s} {absOf s}")
       else if s.pc == .inRun && !bodyBlocked then (s, s!"mismatch body-not-blocked {ctlOf s}")
@@ -96,4 +116,93 @@ def stepLine (s : State) (line : String) : State × String :=
     | _ => (s, "bad-op")
   | _ => (s, "bad-op")
 
-def main : IO Unit := Drv.main' stepLine init
+def QmiModel.LoopTask.LPc.isDone : LPc → Bool | .done _ => true | _ => false
+
+def lpcName : LPc → String
+  | .start => "start" | .clock0 => "clock0" | .top => "top" | .upd => "upd" | .process => "process" | .iter => "iter"
+  | .status => "status" | .pubStatus => "pubStatus" | .pubSignals => "pubSignals" | .timing => "timing"
+  | .sleeping => "sleeping" | .immClock => "immClock" | .selfStop => "selfStop"
+  | .finalize o => "finalize:" ++ pcName (.ranOut o) | .done o => "done:" ++ pcName (.ranOut o)
+
+def parseOutcome : String → Option Outcome
+  | "ret" => some .ret | "stopExc" => some .stopExc | "otherExc" => some .otherExc | _ => none
+
+def parseHook : String → Option Hook
+  | "prepare" => some .prepare | "process" => some .process | "iteration" => some .iteration | "status" => some .status
+  | "pubStatus" => some .pubStatus | "pubSignals" => some .pubSignals | "finalize" => some .finalize | _ => none
+
+def parseB : String → Option Bool | "0" => some false | "1" => some true | _ => none
+
+def parseLAct (tok : String) : Option LAct :=
+  match tok.splitOn ":" with
+  | ["hook", h, r] => match parseHook h, parseOutcome r with | some h, some r => some (.hook h r) | _, _ => none
+  | ["clock", n] => n.toNat?.map .clock
+  | ["testStop", b] => (parseB b).map .testStop
+  | ["updDone", b] => (parseB b).map .updDone
+  | ["statusDone", b] => (parseB b).map .statusDone
+  | ["wake", b] => (parseB b).map .wake
+  | ["selfStopDone"] => some .selfStopDone
+  | _ => none
+
+structure DS where
+  t : State
+  l : Option LState
+
+def stepLine (d : DS) (line : String) : DS × String :=
+  match line.splitOn " " with
+  | ["linit", p, pol] =>
+    match p.toNat?, pol with
+    | some p, "immediate" => ({ d with l := some (linit p .immediate) }, "ok")
+    | some p, "skip"      => ({ d with l := some (linit p .skip) }, "ok")
+    | some p, "terminate" => ({ d with l := some (linit p .terminate) }, "ok")
+    | _, _ => (d, "bad-op")
+  | ["end", "released"] =>
+    -- `context.remove_rpc_object` has returned: the runner must be gone, nothing may be half done
+    if d.t.phase != .removed then (d, s!"mismatch not-removed {ctlOf d.t}")
+    else if d.t.rpc != .idle || d.t.extMid != 0 then (d, s!"mismatch operation-in-progress {ctlOf d.t}")
+    else if d.t.pc != .ended || !d.t.joined then (d, s!"mismatch thread-not-joined {ctlOf d.t} {absOf d.t}")
+    else match d.l with
+      | some l => if d.t.runs == 0 || l.lpc.isDone then (d, "ok") else (d, s!"mismatch loop-not-done lpc={lpcName l.lpc}")
+      | none => (d, "ok")
+  | _ =>
+  match line.splitOn "|" with
+  | ["L", tok, nx] =>
+    match d.l, parseLAct tok with
+    | none, _ => (d, "bad-op no-loop-model")
+    | _, none => (d, "bad-op")
+    | some l, some a =>
+      if d.t.pc != .inRun then (d, s!"disabled {tok}: lifecycle not inside run() ({ctlOf d.t})") else
+      let flagOk := match a with
+        | .testStop b => b == d.t.stopReq
+        | .wake b => b == d.t.stopReq
+        | _ => true
+      if !flagOk then (d, s!"mismatch stop-flag model={b01 d.t.stopReq} at lpc={lpcName l.lpc}") else
+      match lstep l a with
+      | none => (d, s!"disabled {tok} at lpc={lpcName l.lpc}")
+      | some l' =>
+        if nx != "?" && nx != toString l'.next then
+          ({ d with l := some l' }, s!"mismatch next model={l'.next} after lpc={lpcName l'.lpc}")
+        else ({ d with l := some l' }, "ok")
+  | _ =>
+    if line == "init" then ({ t := init, l := none }, "ok") else
+    -- lifecycle event; with a loop model, entering / leaving run() must match the loop's state
+    let gate : Option String :=
+      match d.l with
+      | none => none
+      | some l =>
+        if line.startsWith "runEnter|" then
+          (if l.lpc == .start then none else some s!"mismatch loop-not-at-start lpc={lpcName l.lpc}")
+        else if line.startsWith "runEnd:" then
+          match (line.splitOn "|").head?.bind (fun h => (h.splitOn ":")[1]?.bind parseOutcome) with
+          | some o => if l.lpc == .done o then none else some s!"mismatch loop-not-done lpc={lpcName l.lpc}"
+          | none => some "bad-op"
+        else if line.startsWith "updCheck|" then
+          (if l.lpc == .upd then none else some s!"mismatch update_settings-outside-loop-position lpc={lpcName l.lpc}")
+        else none
+    match gate with
+    | some msg => (d, msg)
+    | none =>
+      let (t', out) := stepTask d.t line
+      ({ d with t := t' }, out)
+
+def main : IO Unit := Drv.main' stepLine { t := init, l := none }
